@@ -120,8 +120,14 @@ func H_C02_Dep(name string, c1, c2, c3, dn int) {
 			if ind.NoNewest != nil && ind.NoNewest[o] {
 				continue
 			}
+			if kfOf(ind, cfg, n, o, k) != "" {
+				continue // position routed to a recorded formula finding: no dependence is claimed there
+			}
 			if k < len(base[o]) && k < len(alt[o]) {
-				vrt.PossibleAt(vrt.Name("dep", o), k, base[o][k] != alt[o][k])
+				// required only where the documented formula itself depends on position k+w
+				// (windows of one make several formulas constant)
+				refDep := ind.Ref(cfg, in, o, k+w) != ind.Ref(cfg, in2, o, k+w)
+				vrt.PossibleIfAt(vrt.Name("dep", o), k, refDep, base[o][k] != alt[o][k])
 			}
 		}
 	}
@@ -279,6 +285,14 @@ func H_C18(name string, c1, c2, c3, dn, which int) {
 	vrt.Reach("end")
 }
 
+// unequalInputDeadlock: the multi-input indicators that are recorded to deadlock
+// when their input streams have different lengths (Duplicate fans out in lockstep
+// while Operate drains "the other side" only after one side has ended).
+var unequalInputDeadlock = map[string]bool{
+	"AccelerationBands": true, "Ad": true, "ChaikinOscillator": true, "Cmf": true, "Kdj": true, "Mfm": true,
+	"Mfv": true, "Mlr": true, "Mls": true, "Po": true, "StochasticOscillator": true,
+}
+
 // H_C03: termination, no leak, schedule independence (certificate issued by the
 // engine for this run). capacity = input channel capacity; skew makes the input
 // streams unequal: stream j gets n + ((j+skew) % 3) - 1 values when skew > 0.
@@ -287,6 +301,9 @@ func H_C03(name string, c1, c2, c3, n, capacity, skew int) {
 	cfg := cfg3(c1, c2, c3)
 	inst := ind.Make(cfg)
 	declareOutcome(ind, cfg, n)
+	if skew > 0 && unequalInputDeadlock[name] {
+		vrt.KnownOutcome("KF-C03-unequal-input-lengths")
+	}
 	in := Inputs(ind, "", n+1)
 	for j := range in {
 		nj := n
